@@ -47,13 +47,19 @@ ReaderStep(c, f) == /\ cmdState[c] = "running" /\ ~done
                     /\ rd' = [rd EXCEPT ![c][f] = @ + 1]
                     /\ UNCHANGED <<sent, cmdWire, active, cmdState, smsgs, nFlush, nSynPending, wire, outbuf, delivered, cstate, done>>
 
-\* commandFinished(): decrementActiveCommands() == 0 -> shutdown() (runs flush first)
-CmdFinish(c) == /\ cmdState[c] = "running"
-                /\ \A f \in Files(c) : rd[c][f] = Cmds[c][f]
-                /\ cmdState' = [cmdState EXCEPT ![c] = "finished"]
-                /\ active' = active - 1
-                /\ nFlush' = IF active' = 0 THEN nFlush + 1 ELSE nFlush
-                /\ UNCHANGED <<sent, cmdWire, rd, lines, smsgs, nSynPending, wire, outbuf, delivered, cstate, done>>
+\* commandFinished(): decrementActiveCommands() is atomic.AddInt32(-1) followed by a separate atomic.LoadInt32; the
+\* command whose load returns 0 runs shutdown() (flush first).  Two actions, so that TLC explores the window between
+\* them (two commands both loading 0 -> two shutdowns; a command arriving in the window -> no shutdown yet).
+CmdDec(c) == /\ cmdState[c] = "running"
+             /\ \A f \in Files(c) : rd[c][f] = Cmds[c][f]
+             /\ cmdState' = [cmdState EXCEPT ![c] = "dec"]
+             /\ active' = active - 1
+             /\ UNCHANGED <<sent, cmdWire, rd, lines, smsgs, nFlush, nSynPending, wire, outbuf, delivered, cstate, done>>
+CmdLoad(c) == /\ cmdState[c] = "dec"
+              /\ cmdState' = [cmdState EXCEPT ![c] = "finished"]
+              /\ nFlush' = IF active = 0 THEN nFlush + 1 ELSE nFlush
+              /\ UNCHANGED <<sent, cmdWire, active, rd, lines, smsgs, nSynPending, wire, outbuf, delivered, cstate, done>>
+CmdFinish(c) == CmdDec(c) \/ CmdLoad(c)
 
 FlushDrained == /\ nFlush > 0 /\ lines = <<>> /\ smsgs = <<>>
                 /\ nFlush' = nFlush - 1 /\ nSynPending' = nSynPending + 1
@@ -99,7 +105,7 @@ Fair == WF_vars(Next)
 Spec == Init /\ [][Next]_vars /\ WF_vars(ClientSend) /\ WF_vars(ServerRecvCmd) /\ WF_vars(FlushDrained)
              /\ WF_vars(SynEnqueue) /\ WF_vars(ServerReadLine) /\ WF_vars(ServerReadMsg) /\ WF_vars(ClientPrint)
              /\ WF_vars(ClientSyn) /\ WF_vars(ConsumerRead)
-             /\ \A c \in 1..K : WF_vars(CmdFinish(c)) /\ \A f \in Files(c) : WF_vars(ReaderStep(c, f))
+             /\ \A c \in 1..K : WF_vars(CmdDec(c)) /\ WF_vars(CmdLoad(c)) /\ \A f \in Files(c) : WF_vars(ReaderStep(c, f))
 
 \* Ref (C02): when the session has ended, every line of every requested file was printed exactly once
 AllDelivered == Terminated => \A c \in 1..K : \A f \in Files(c) : delivered[c][f] = Cmds[c][f]
